@@ -249,6 +249,20 @@ def search(ctx):
                 if got2 != ("ok", (sel, key)):
                     ctx.fail("ecies-recipient-in-ring", {"d": hex(d), "sel": sel, "key": key, "other": hex(d_other),
                                                          "ring_selectors": [e.key_selector for e in ringl]}, repr(got2)[:200])
+                # a decryptor object that has unwrapped a block (from another sender) is afterwards used as the explicit
+                # recipient: the new block must be addressed to the decryptor's own key pair
+                dec = EccDecryptor(sel, priv)
+                foreign = run_impl(lambda: InitEccAuthBlock(sel).pack(C.gen_key(r), [EccEncryptor(sel, priv.public_key)]))
+                ctx.case(("decryptor-as-recipient", d, sel, key))
+                if foreign[0] == "ok":
+                    un = run_impl(lambda: InitEccAuthBlock.unpack(foreign[1], [dec]))
+                    if r.random() < 0.5:
+                        run_impl(lambda: InitEccAuthBlock.unpack(foreign[1], [dec]))
+                    blk5 = run_impl(lambda: InitEccAuthBlock(sel).pack(key, [dec]))
+                    got5 = run_impl(indep_recipient, d, blk5[1]) if blk5[0] == "ok" else blk5
+                    if got5 != ("ok", (sel, key)):
+                        ctx.fail("ecies-recipient-after-unwrap", {"d": hex(d), "sel": sel, "key": key, "unwrapped_first": foreign[1]},
+                                 "EccDecryptor used to unwrap a block (%r) and then as recipient: %s" % (un[0], repr(got5)[:200]))
                 blkobj = InitEccAuthBlock(sel)
                 first = run_impl(lambda: blkobj.pack(key, [EccEncryptor(sel, opriv.public_key)]))
                 again = run_impl(lambda: blkobj.pack(key, [EccEncryptor(sel, priv.public_key)]))
@@ -312,6 +326,21 @@ def search(ctx):
                     blk = run_impl(lambda: InitEccAuthBlock(sel).pack(C.gen_key(r), []))
                     if blk[0] != "ok" or seen != [EE.DEFAULT_PUBLIC_KEYS[sel]] or blk[1][0] != sel:
                         ctx.fail("default-recipient", {"sel": sel, "seen": [s.hex() for s in seen]}, repr(blk)[:120])
+                    # "without an explicit recipient": key rings that hold encryptors, none of them an ECC encryptor
+                    # for this selector (customer key, security code, ECC recipients of other selectors)
+                    from bec2format.bec2file import SoftwareCustKeyEncryptor, ConfigSecurityCodeEncryptor
+                    okey = plug.PrivateEccKeyProxy(SigningKey.from_secret_exponent(r.randrange(1, N_ORDER), NIST256p)).public_key
+                    rings = [[ConfigSecurityCodeEncryptor(b"12345678")], [SoftwareCustKeyEncryptor(bytes(16))],
+                             [EE((sel + 1) % 4, okey)], [SoftwareCustKeyEncryptor(bytes(16)), EE((sel + 2) % 4, okey)]]
+                    ring = r.choice(rings)
+                    del seen[:]
+                    ctx.case(("default-with-ring", sel, tuple(type(x).__name__ for x in ring)))
+                    blk = run_impl(lambda: InitEccAuthBlock(sel).pack(C.gen_key(r), ring))
+                    if blk[0] != "ok" or seen != [EE.DEFAULT_PUBLIC_KEYS[sel]] or blk[1][0] != sel:
+                        ctx.fail("default-recipient", {"sel": sel, "seen": [x.hex() for x in seen],
+                                                       "ring": [type(x).__name__ + (":%d" % x.key_selector if hasattr(x, "key_selector") else "")
+                                                                for x in ring]},
+                                 "key ring without an ECC recipient for selector %d: %s" % (sel, repr(blk)[:120]))
                     # a file written that way carries that block
                     s = io.StringIO()
                     del seen[:]
@@ -363,8 +392,61 @@ def search(ctx):
 
 
 def replay(ctx, data):
+    """re-runs the recorded recipients / selectors / session keys on /repo (fresh ephemeral keys are drawn, the
+    predicate is evaluated again by the independent recipient)"""
+    import bec2format
+    import register_crypto_plugin as plug
+    from bec2format.bec2file import InitEccAuthBlock, EccEncryptor, EccDecryptor
+    from register_crypto_plugin.ecdsa import SigningKey, NIST256p
+    hx = lambda v: bytes.fromhex(v["hex"]) if isinstance(v, dict) else v
+    rc = 0
     for f in data.get("fails", []):
-        print(f["kind"], f["detail"][:400], f["data"])
+        d = f["data"]
+        print(f["kind"], f["detail"][:400])
+        try:
+            if f["kind"] == "default-recipient" and "sel" in d:
+                seen = []
+
+                class RecPriv(plug.PrivateEccKeyProxy):
+                    def compute_dh_secret(self, public_key):
+                        seen.append(public_key.to_der_fmt())
+                        return super().compute_dh_secret(public_key)
+                bec2format.register_PrivateEccKey(RecPriv)
+                try:
+                    from bec2format.bec2file import SoftwareCustKeyEncryptor, ConfigSecurityCodeEncryptor
+                    ok = plug.PrivateEccKeyProxy(SigningKey.from_secret_exponent(7, NIST256p)).public_key
+                    rings = [[], [ConfigSecurityCodeEncryptor(b"12345678")], [SoftwareCustKeyEncryptor(bytes(16))],
+                             [EccEncryptor((d["sel"] + 1) % 4, ok)]]
+                    for ring in rings:
+                        del seen[:]
+                        blk = run_impl(lambda: InitEccAuthBlock(d["sel"]).pack(bytes(16), ring))
+                        bad = blk[0] != "ok" or seen != [EccEncryptor.DEFAULT_PUBLIC_KEYS[d["sel"]]]
+                        print(" key ring %r -> %s, ECDH peer is the published key: %s" % (
+                            [type(x).__name__ for x in ring], blk[0] if blk[0] == "ok" else blk, not bad))
+                        rc |= bad
+                finally:
+                    bec2format.register_PrivateEccKey(plug.PrivateEccKeyProxy)
+            elif "d" in d and "sel" in d and "key" in d:
+                dd, sel, key = int(d["d"], 16), d["sel"], hx(d["key"])
+                priv = plug.PrivateEccKeyProxy(SigningKey.from_secret_exponent(dd, NIST256p))
+                if f["kind"] == "ecies-recipient-after-unwrap":
+                    dec = EccDecryptor(sel, priv)
+                    foreign = InitEccAuthBlock(sel).pack(bytes(range(16)), [EccEncryptor(sel, priv.public_key)])
+                    InitEccAuthBlock.unpack(foreign, [dec])
+                    blk = run_impl(lambda: InitEccAuthBlock(sel).pack(key, [dec]))
+                else:
+                    blk = run_impl(lambda: InitEccAuthBlock(sel).pack(key, [EccEncryptor(sel, priv.public_key)]))
+                got = run_impl(indep_recipient, dd, blk[1]) if blk[0] == "ok" else blk
+                lib = run_impl(lambda: InitEccAuthBlock.unpack(blk[1], [EccDecryptor(sel, priv)])) if blk[0] == "ok" else blk
+                print(" block:", blk[1].hex() if blk[0] == "ok" else blk)
+                print(" independent recipient recovers:", got, " library unpack:", lib if lib[0] != "ok" else lib[1][1].hex())
+                rc |= got != ("ok", (sel, key)) or lib[0] != "ok" or lib[1][1] != key
+            else:
+                print(" (recorded input is not re-executable; data: %r)" % (d,))
+                rc |= 1
+        except Exception as e:   # noqa
+            print(" replay raised", repr(e))
+            rc |= 1
     for b in data.get("broken", []):
         print("broken:", b["what"])
-    return 1 if data.get("fails") else 0
+    return 1 if rc else 0
